@@ -13,6 +13,6 @@ CONSTANTS
   AsCoded = {}
   Replay = FALSE
 VIEW View
-INVARIANTS TypeOK VersionConsistent C25_Epoch
+INVARIANTS TypeOK VersionConsistent C25_Epoch HubHasEntry
 PROPERTIES C25_Frames
 CHECK_DEADLOCK FALSE
